@@ -455,6 +455,28 @@ pub fn wrapped_puppet() -> Box<dyn Contract<Empty, Empty>> {
     Box::new(cw_multi_test::ContractWrapper::new_with_empty(exec, inst, query).with_reply_empty(reply).with_sudo_empty(sudo).with_migrate_empty(migrate))
 }
 
+/// The wrapped puppet WITHOUT a migrate entry point (no `with_migrate*` step): a code nobody can
+/// migrate to.
+pub fn wrapped_puppet_without_migrate() -> Box<dyn Contract<Empty, Empty>> {
+    const P: Puppet = Puppet { tag: 9 };
+    fn exec(deps: DepsMut, env: Env, info: MessageInfo, msg: NodeMsg) -> AnyResult<Response> {
+        P.run(EntryKind::Execute, deps, env, Some(info), Some(msg.n), None)
+    }
+    fn inst(deps: DepsMut, env: Env, info: MessageInfo, msg: NodeMsg) -> AnyResult<Response> {
+        P.run(EntryKind::Instantiate, deps, env, Some(info), Some(msg.n), None)
+    }
+    fn query(deps: Deps, env: Env, _msg: Empty) -> AnyResult<Binary> {
+        Contract::query(&P, deps, env, vec![])
+    }
+    fn sudo(deps: DepsMut, env: Env, msg: NodeMsg) -> AnyResult<Response> {
+        P.run(EntryKind::Sudo, deps, env, None, Some(msg.n), None)
+    }
+    fn reply(deps: DepsMut, env: Env, msg: Reply) -> AnyResult<Response> {
+        Contract::reply(&P, deps, env, msg)
+    }
+    Box::new(cw_multi_test::ContractWrapper::new_with_empty(exec, inst, query).with_reply_empty(reply).with_sudo_empty(sudo))
+}
+
 #[allow(dead_code)]
 pub fn addr(s: &str) -> Addr {
     Addr::unchecked(s)
